@@ -75,7 +75,7 @@ def run(R):
         return R.finish()
     rexe, hexe = b
     # ---- generator identity (finite direct decision) ----
-    gi = codecgen.generator_identity(pkgs, R.work)
+    gi = codecgen.generator_identity(pkgs, cc.rundir(R))
     R.coverage["generator_identity"] = {d: (ok, det) for d, ok, det in gi}
     for d, ok, det in gi:
         if not ok:
@@ -93,7 +93,7 @@ def run(R):
     runs.append(("generated", "TestTrace", dict(VERIF_N=str(n), VERIF_ALLPOS="0" if R.quick else "1", VERIF_BIG="1")))
     allstats = {}
     for what, test, env in runs:
-        trace = os.path.join(R.work, "trace-" + cc.sha(what)[:8])
+        trace = os.path.join(cc.rundir(R), "trace-" + cc.sha(what)[:8])
         rc, o = cc.run_harness(R, hexe, test, trace, env, timeout=3000)
         if rc != 0:
             R.oracle_failure("harness-crash:" + what, "the Go harness aborted on %s (crash outside recover?)" % what, dict(output=o[-3000:]))
@@ -145,9 +145,9 @@ def replay(R, path):
     if b is None:
         return R.finish()
     rexe, hexe = b
-    ops = os.path.join(R.work, "replay-ops")
+    ops = os.path.join(cc.rundir(R), "replay-ops")
     open(ops, "w").write(line + "\n")
-    trace = os.path.join(R.work, "replay-trace")
+    trace = os.path.join(cc.rundir(R), "replay-trace")
     rc, o = cc.run_harness(R, hexe, "TestCorpus", trace, dict(VERIF_OPS=ops))
     print(o[-2000:])
     if rc != 0:
